@@ -25,6 +25,10 @@ class PathAbort(BaseException):
     """The current path is infeasible / excluded by an assumption.  Not an error."""
 
 
+class SubtreeCut(BaseException):
+    """collect mode: this path continues in a separate task"""
+
+
 class NonFinite(BaseException):
     """A feasible zero denominator / negative radicand: float NumPy would produce inf or NaN."""
 
@@ -786,6 +790,9 @@ class Ctx:
             return kn
         st = self.ex.stats
         i = len(self.decisions)
+        if self.ex.collect_depth is not None and i >= self.ex.collect_depth and i >= len(self.prefix):
+            self.ex.roots.append(list(self.decisions))
+            raise SubtreeCut()
         if i < len(self.prefix):
             val = self.prefix[i]
         else:
@@ -1060,13 +1067,15 @@ class Explorer:
         self.reached = set()
         self.reach_checked = False
         self.margin_fn = None
+        self.collect_depth = None   # cut paths at this many decisions and hand the subtrees out as `roots`
+        self.roots = []
 
     def push_work(self, prefix):
         self.work.append(prefix)
 
-    def run(self, fn):
+    def run(self, fn, root=None):
         global CUR
-        self.work.append([])
+        self.work.append(list(root or []))
         while self.work:
             if self.max_paths and self.stats.paths >= self.max_paths:
                 self.truncated = True
@@ -1091,6 +1100,9 @@ class Explorer:
             fn(ctx)
         except PathAbort:
             st.paths_aborted += 1
+            return
+        except SubtreeCut:
+            st.paths -= 1
             return
         except NonFinite as e:
             st.paths_nonfinite += 1
